@@ -195,6 +195,20 @@ def file_failure_scenarios(sid_prefix):
     return "".join(out)
 
 
+def session_scenarios(seed, n):
+    """the log handler is process-wide state of the host: a second library session (QSexactClear / QSexactStart) must still use it"""
+    r = random.Random(seed)
+    out = []
+    for k in range(n):
+        lp = lpfam.family(r.choice(["boxed", "feasible", "infeasible_margin"]), r)
+        lines = ["scenario session_%d_%d" % (seed, k), "handler on"] + lpfam.build_cmds(lp, "h0", "load") + ["set_param h0 4 1", "opt_dual h0", "free h0", "restart"]
+        lines += lpfam.build_cmds(lp, "h0", "load") + ["set_param h0 4 %d" % r.choice([1, 2]), r.choice(["opt_primal h0", "opt_dual h0", "exact h0 primal - 1"]),
+                                                      "read_prob h1 /nonexistent/dir/x.lp LP", "read_prob h1 bad_token.lp LP", "write_prob h0 /nonexistent/dir/o.lp LP", "free h0", "restart",
+                                                      "read_prob h2 ok_warn.lp LP", "set_param h2 4 1", "exact h2 dual - 1", "free h2"]
+        out.append("\n".join(lines) + "\n")
+    return "".join(out)
+
+
 def display_scenarios(seed, n):
     """solver progress output at every display level must go to the handler"""
     r = random.Random(seed)
